@@ -154,7 +154,7 @@ def _work(args):
     space = check.space(tier)
     agg = {
         "n": 0, "fired": Counter(), "probes": Counter(), "keys": set(), "nontrivial_keys": set(),
-        "ileave": set(), "sim_s": 0.0, "events": 0, "fail": [], "harness": [], "digests": hashlib.sha256(),
+        "ileave": set(), "sim_s": 0.0, "events": 0, "fail": [], "harness": [], "digests": 0,
         "exempt": 0, "parts": Counter(), "samples": [],
     }
     for i in range(lo, hi):
@@ -180,7 +180,9 @@ def _work(args):
         agg["sim_s"] += r.sim_s
         agg["events"] += r.events
         agg["exempt"] += r.exempt
-        agg["digests"].update(f"{i}:{r.digest}:{r.sig};".encode())
+        # order- and chunking-independent combination: sum of per-run hashes modulo 2^256
+        agg["digests"] = (agg["digests"] + int.from_bytes(
+            hashlib.sha256(f"{i}:{r.digest}:{r.sig};".encode()).digest(), "big")) % (1 << 256)
         if not r.ok:
             if len(agg["fail"]) < 40:
                 agg["fail"].append((i, r.sig, r.detail[:2000]))
@@ -188,7 +190,6 @@ def _work(args):
                 agg["fail"].append((i, r.sig, ""))
         if len(agg["samples"]) < 1 and i == lo:
             agg["samples"].append(plan)
-    agg["digests"] = agg["digests"].hexdigest()
     faulthandler.cancel_dump_traceback_later()
     return lo, agg
 
@@ -439,7 +440,7 @@ def main(argv=None):
     n = 0
     exempt = 0
     fails = []
-    dig = hashlib.sha256()
+    dig = 0
     samples = []
     for lo in sorted(results):
         a = results[lo]
@@ -455,10 +456,10 @@ def main(argv=None):
         exempt += a["exempt"]
         fails.extend(a["fail"])
         harness.extend(a["harness"])
-        dig.update(a["digests"].encode())
+        dig = (dig + a["digests"]) % (1 << 256)
         if len(samples) < 4:
             samples.extend(a["samples"])
-    batch_digest = dig.hexdigest()
+    batch_digest = f"{dig:064x}"
     if args.digest_only:
         print(f"DIGEST {check_id} {args.tier} seed={seed} n={n} {batch_digest}")
         return 0 if not harness else 2
